@@ -321,6 +321,20 @@ def CArr.putItem (c : CArr) (i : Int) (x : List Int) : CArr :=
   | some a, some b => { c with values := putSlice c.values a b x }
   | _, _ => c
 
+/-- a k-mer accumulator (`ArrayAccumulator`: a Boolean array of size 4^k; `SetAccumulator`: a Python set): the indices added so far -/
+structure Acc where
+  isArray : Bool
+  k : Nat
+  elems : List Nat
+  deriving Repr, DecidableEq, Inhabited
+
+def Acc.new (isArray : Bool) (k : Int) : Acc := { isArray := isArray, k := k.toNat, elems := [] }
+/-- `accumulator.add(i)`; for the array flavour an index outside the array raises -/
+def Acc.addBad (a : Acc) (i : Int) : Bool := decide (i < 0) || (a.isArray && decide ((4 : Int) ^ a.k ≤ i))
+def Acc.add (a : Acc) (i : Int) : Acc := { a with elems := a.elems ++ [i.toNat] }
+/-- `accumulator.signature()`: the sorted duplicate-free indices (`np.flatnonzero` of the array / the sorted set; the two agree by `C01.accumulators_agree`) -/
+def Acc.signature (a : Acc) : List Int := (GambitV.setAccumulate a.elems).map (fun (x : Nat) => (x : Int))
+
 /-- `gambit.classify.GenomeMatch` (reference genomes are indices into the list of genome taxa) -/
 structure GenomeMatch where
   genome : Nat
